@@ -276,6 +276,37 @@ def full(col, seed, max_examples, fmts):
                    lambda c, case: check_full(c, case), seed, max_examples)
 
 
+LIMIT_IMAGES = (
+    # tables at the largest entry count their format allows, the size item
+    # first / last / in the middle
+    ('vhdx', dict(size=12345678, meta_before=2046, meta_after=0)),
+    ('vhdx', dict(size=12345678, meta_before=0, meta_after=2046)),
+    ('vhdx', dict(size=2 ** 63 + 5, meta_before=1000, meta_after=1046)),
+    ('vhdx', dict(size=999, region_before=2045, region_after=0)),
+    ('vhdx', dict(size=999, region_before=0, region_after=2045)),
+    ('vhdx', dict(size=77, region_before=1000, region_after=1045,
+                  meta_before=1023, meta_after=1023)),
+    ('vmdk', dict(capacity=777, desc_num=2047)),
+    ('vmdk', dict(capacity=777, desc_num=2047, footer=True)),
+    ('vmdk', dict(capacity=777, desc_num=2046, exact_fill=True,
+                  final_newline=False)),
+)
+
+
+def limits(col):
+    """Well-formed images whose tables are as large as their format allows
+    (2047 metadata entries, 2047 region entries, 2047 descriptor sectors)."""
+    from vcheck import imggen
+    sub = 'limits'
+    for fmt, p in LIMIT_IMAGES:
+        n = len(imggen.build(fmt, p).data)
+        for sched in (['fixed', 512], ['fixed', 65536], ['sizes', [n]],
+                      ['fixed', 4099]):
+            check_full(col, {'fmt': fmt, 'params': p, 'schedule': sched,
+                             'queries': None}, sub)
+    col.exhaustive[sub] = True
+
+
 def size_sweep(col, fmt):
     """Every edge size value for one format, reference schedule."""
     from vcheck import imgstrat
@@ -373,6 +404,7 @@ def tasks(tier, seed):
     for fmt in ('raw', 'qcow2', 'vhd', 'vmdk', 'vdi', 'iso', 'gpt', 'luks',
                 'vhdx'):
         out.append(Task('sweep', size_sweep, fmt=fmt))
+    out.append(Task('limits', limits))
     big = 2 ** 63 + 12345
     small_imgs = [('qcow2', dict(size=big, version=3)),
                   ('qcow2', dict(size=77, version=2)),
